@@ -1,6 +1,8 @@
 package pathdbsim
 
 import (
+	"testing"
+
 	"verifsim/simcore"
 )
 
@@ -126,6 +128,10 @@ func genC17(r *simcore.Rand, tier string) any {
 func genC22(r *simcore.Rand, tier string) any {
 	p := &Plan{Check: "C22", K: genKnobs(r)}
 	p.K.Indexing = false
+	if r.Bool(0.35) {
+		genLegacy(r, tier, p)
+		return p
+	}
 	p.OrphanOK = r.Bool(0.6)
 	single := r.Bool(0.4)
 	nops := r.Range(8, 50)
@@ -157,6 +163,14 @@ func genC22(r *simcore.Rand, tier string) any {
 		p.Tape = r.Tape(3000)
 	}
 	return p
+}
+
+// runC22 dispatches between the path database world and the legacy snapshot tree world.
+func runC22(t *testing.T, pl any) *simcore.Result {
+	if pl.(*Plan).Legacy {
+		return runLegacy(t, pl.(*Plan))
+	}
+	return runPlan(t, pl)
 }
 
 var realComponents = []string{
@@ -232,13 +246,13 @@ func Checks() map[string]*simcore.Check {
 			ID: "C22", Engine: "pathdbsim", Level: "exploration",
 			Rule: "plan = the C16 layer-tree workload (forks, destruct/recreate, deletions overlapping across layers, tiny write buffers, Commit, Journal+reopen) with iterator reads by the main actor and 1-3 iterator actors: fast (merged) and binary account/storage iterators at random live or dropped roots with seek = zero / exact key / just after a key / max; every Next() is a gate, so flattening and flushing proceed between steps. Drained sequence must be a prefix of the ascending live entries of the model state from the seek position with equal values; complete when the iterator ends without error; an error only when a tree-changing operation overlapped the iteration; no iterator for a dropped root. Non-trivial = at least one non-empty complete iteration and one flatten; distinct = distinct (schedule, model states) fingerprints.",
 			Assumptions: []string{
-				"only the path database iterators are covered (the legacy snapshot tree iterators of the property statement are not: see NOTES.md)",
+				"35% of the plans run the second world instead: a real core/state/snapshot.Tree (generated empty base, Update, Cap to 0-4 layers, fast and binary iterators, iterators opened, partially drained, drained further after Update/Cap, re-opened so that cached sorted key lists are reused) on a SimKV, single-threaded, judged by the same per-root model; its layer set is compared with the Cap policy after every mutation",
 				"an iterator whose base layer went stale may fail; what it yielded before must still be right",
 			},
 			Components: simcore.Components{Real: append([]string{"triedb/pathdb fastIterator, binaryIterator, diff/disk account and storage iterators"}, realComponents...), Stub: stubComponents},
 			Perturbed:  []string{"map iteration order", "lookup workers"},
 			Runs:       map[string]int{"quick": 4000, "thorough": 50000},
-			Gen:        genC22, Decode: decodePlan, Run: runPlan, Shrink: shrinkPlan,
+			Gen:        genC22, Decode: decodePlan, Run: runC22, Shrink: shrinkPlan,
 			ProbeNames: []string{"iterator-complete", "iterator-nonempty", "iterator-failed-on-stale-base", "flatten", "dropped-root-refused"},
 		},
 	}
